@@ -708,6 +708,16 @@ pub fn cases_crash(tier: &str, rng: &mut Rng, stats: &mut Stats, out: &mut Out) 
             out.case(&Case::Read { target: "generic".into(), shp: data, shx: if rng.chance(1, 2) { Some(xdata) } else { None } });
         }
     }
+    {
+        // first batch at positive coordinates, a finalize that completes, then a shape further out on
+        // the negative side, and a second finalize: every byte cut of the header rewrite (also inside the
+        // box) must leave the first batch readable
+        let p = |x: f64, y: f64| Ctor::Point(Dim::Xy, P { x: x.to_bits(), y: y.to_bits(), z: 0, m: NO_DATA_BITS });
+        let ops = vec![WOp::Write(p(1.0, 1.0)), WOp::Write(p(2.0, 2.5)), WOp::Finalize, WOp::Write(p(-3.0, -4.0)), WOp::Finalize];
+        stats.hit("crash.workload.growing-box");
+        let case = Case::Whist { shx: true, ending: "drop".into(), ops };
+        judge(out, &case);
+    }
     for (n_old, n_new) in [(40usize, 3usize), (7, 7), (12, 0)] {
         let id = out.oracle_only_id();
         out.verdict(&id, &format!("scenario path-overwrite {} {}", n_old, n_new), crate_dbf::oracle_path_overwrite(n_old, n_new));
@@ -1133,6 +1143,30 @@ pub fn cases_rhist(tier: &str, rng: &mut Rng, stats: &mut Stats, out: &mut Out) 
         let shapes: Vec<Any> = (0..n).map(|k| build(&Ctor::Point(Dim::Xyzm, P::new(Dim::Xyzm, bits(k as f64), bits(1.0), bits(2.0), bits(3.0)))).unwrap()).collect();
         let (shp, shx) = write_files(true, &shapes);
         files.push((shp, shx, "PointZ".into()));
+        // a polyline file whose second feature has no geometry (a null record in the middle)
+        let (pshp, _) = (files[0].0.clone(), ());
+        if let Ok(recs) = walk_records(&pshp) {
+            let mut f = pshp[..100].to_vec();
+            let mut x = pshp[..100].to_vec();
+            for (i, (off, len)) in recs.iter().enumerate() {
+                let start = f.len();
+                if i == 1 {
+                    f.extend_from_slice(&[0, 0, 0, 2, 0, 0, 0, 2, 0, 0, 0, 0]);
+                    x.extend_from_slice(&((start / 2) as i32).to_be_bytes());
+                    x.extend_from_slice(&2i32.to_be_bytes());
+                } else {
+                    let a = *off as usize * 2;
+                    f.extend_from_slice(&pshp[a..a + 8 + *len as usize * 2]);
+                    x.extend_from_slice(&((start / 2) as i32).to_be_bytes());
+                    x.extend_from_slice(&(*len as i32).to_be_bytes());
+                }
+            }
+            let total = (f.len() / 2) as i32;
+            f[24..28].copy_from_slice(&total.to_be_bytes());
+            let xt = (x.len() / 2) as i32;
+            x[24..28].copy_from_slice(&xt.to_be_bytes());
+            files.push((f, x, "generic".into()));
+        }
     }
     let alphabet: Vec<ROp> = vec![ROp::It(0), ROp::It(1), ROp::It(2), ROp::It(99), ROp::Nth(0), ROp::Nth(2), ROp::Nth(4), ROp::Seek(0), ROp::Seek(2), ROp::Seek(4), ROp::Seek(5), ROp::Count, ROp::Hint, ROp::Nth(3), ROp::Seek(3), ROp::Seek(1)];
     let core = 12; // the first `core` symbols are enumerated exhaustively
@@ -1235,6 +1269,17 @@ pub use crate_dbf::{cases_dbf, cases_dbf_c10, cases_pairs_c15, oracle_c08, oracl
 pub fn oracle_scenario(prop: &str, a: &[String]) -> Option<Verdict> {
     match (prop, a.first().map(|s| s.as_str())) {
         ("C11", Some("torn-length")) => Some(oracle_c11_torn(a.get(1)?.parse().ok()?, a.get(2)?.parse().ok()?)),
+        ("C20", Some("geo-collections")) => Some(crate_geo::oracle_c20_collections()),
+        (_, Some("big-index")) => Some(crate::round3::oracle_big_index(a.get(1)?.parse().ok()?)),
+        (_, Some("far-records")) => Some(crate::round3::oracle_far_records()),
+        (_, Some("typed-nth-failure")) => Some(crate::round3::oracle_typed_nth_failure()),
+        (_, Some("custom-rejected")) => Some(crate::round3::oracle_custom_rejected(a.get(1)?)),
+        (_, Some("header-code-version")) => {
+            let code: i32 = a.get(1)?.parse().ok()?;
+            let v = u32::from_str_radix(a.get(2)?, 16).ok()?;
+            Some(crate::round3::oracle_header_code_any_version(code, v.to_be_bytes()))
+        }
+        ("C15", Some("reader-pairs-noshx")) => Some(crate_dbf::oracle_c15_pairs_noshx(a.get(1)?, a.get(2)?.parse().ok()?, a.get(3)?.parse().ok()?)),
         _ => crate_dbf::oracle_scenario_dbf(prop, a),
     }
 }
